@@ -18,7 +18,7 @@ func init() {
 		Explanation: "(R1) header finalisation order: the route's parser runs before the virtual host's, which runs before the router-global one, for requests and responses; evaluateHeaders applies additions before removals and joins with ',' only when the formatter says append and a non-empty value exists; " +
 			"(R2) short-circuit: in chooseHost the direct-response and redirect arms reply with the rule's own status/body/code and return before any connection pool is looked at; (R3) retry only before the response starts: the retry decision precedes the store downstreamResponseStarted=true which precedes appendHeaders; a reset retries only when !downstreamResponseStarted; doRetry runs only from the Retry phase; " +
 			"(R4) budget: shouldRetry returns NoRetry when the remaining count is 0 and decrements it before any ShouldRetry answer; nothing else writes the budget after construction; (R5) a retry re-selects host and pool and builds a new upstream request from them before sending; " +
-			"(R6) timeout precedence: sources are applied route -> request headers -> protocol-supplied variable, so the last present source wins, the default only when the result is 0, and a per-try timeout not smaller than the global one is dropped. (R7) the global response timer is created once with timeout.GlobalTimeout when the request has been sent and is not re-armed by anything reachable from doRetry; each retry arms the per-try timer. (R1, additions) headers.Set runs in every iteration over the configured additions and the existing value is joined in only under append and non-empty, however the string is built; (R8) prefix rewrite = prefixRewrite + path[len(matched):] under HasPrefix(path, matched), regex rewrite = regexPattern.ReplaceAllString(path, Substitution), original path saved first, prefix wins, host rewrite order host_rewrite > auto_host_rewrite_header > auto_host_rewrite. (R9) no call of RouteRule.FinalizeRequestHeaders in pkg/proxy lies in a function statically reachable from downStream.doRetry, nor inside a loop.",
+			"(R6) timeout precedence: sources are applied route -> request headers -> protocol-supplied variable, so the last present source wins, the default only when the result is 0, and a per-try timeout not smaller than the global one is dropped. (R7) the global response timer is created once with timeout.GlobalTimeout when the request has been sent and is not re-armed by anything reachable from doRetry; each retry arms the per-try timer. (R1, additions) headers.Set runs in every iteration over the configured additions and the existing value is joined in only under append and non-empty, however the string is built; (R8) prefix rewrite = prefixRewrite + path[len(matched):] under HasPrefix(path, matched), regex rewrite = regexPattern.ReplaceAllString(path, Substitution), original path saved first, prefix wins, host rewrite order host_rewrite > auto_host_rewrite_header > auto_host_rewrite. (R9) no call of RouteRule.FinalizeRequestHeaders in pkg/proxy lies in a function statically reachable from downStream.doRetry, nor inside a loop. (R10) in the HTTP/2 client's AppendHeaders no path reaches NewMClientStream without the URL being rebuilt from the path variable or compared equal to it. (R11) the port-stripping store of the scheme redirect is reachable exactly for (Scheme, port) in {(https,80),(http,443)}, conditions evaluated per combination, also through a boolean helper.",
 		Run: runC17,
 	})
 }
@@ -37,6 +37,8 @@ func runC17(c *Ctx) {
 	defer c17FinalisedOnce(c, "pkg/proxy")
 	c.Rule("C17.R10", "a rewritten path reaches the HTTP/2 upstream: the outgoing URL is rebuilt from the path variable or found equal to it", 1)
 	defer c17RewriteReachesH2Upstream(c)
+	c.Rule("C17.R11", "a scheme redirect drops the host's port exactly when it is the default port of the original scheme", 1)
+	defer c17RedirectPortTable(c, "pkg/proxy")
 	c.Rule("C17.R6", "timeout sources applied lowest priority first; default only when zero", 4)
 	c.NotDecided = append(c.NotDecided, "header values, regex rewrites and URL composition on concrete inputs", "retry-on condition tables (status code lists) on concrete responses")
 
